@@ -34,3 +34,12 @@ package tool
 //@   invariant hstate[io.Writer(h)] == FM(fis, rangeindex+1, mod, headerS(self, xgo))
 //@   invariant fis == dirList(dir) && h != nil && (forall i in 0..len(fis) :: fis[i] != nil)
 //@   use FMstep(fis, rangeindex+1, mod, headerS(self, xgo))
+//@
+//@ # Importer.PkgHash (the cache's key function): a package of this module, and an external package without a pinned
+//@ # version (a replace directive to a directory), is keyed by dirHash of ITS directory with the caller's self flag;
+//@ # the module lookup (xgomod) is ASSUMED to return a non-nil package when it succeeds
+//@ func (*Importer).PkgHash
+//@   requires p != nil && p.mod != nil && p.xgo != nil
+//@   assigns hstate
+//@   at call dirHash#1 assert [hashes-the-package-directory] arg0 == p.mod && arg1 == p.xgo && arg2 == pkg.Dir && arg3 == self &&
+//@           (pkg.Type == xgomod.PkgtModule || (pkg.Type == xgomod.PkgtExtern && pkg.Real.Version == ""))
